@@ -3,6 +3,7 @@
 from __future__ import annotations
 
 import json
+import math
 import re
 from typing import TYPE_CHECKING
 from typing import Callable
@@ -525,7 +526,15 @@ class Parser:
             ) from err
 
     def parse_float_literal(self, stream: TokenStream) -> FilterExpression:
-        return FloatLiteral(value=float(stream.current.value))
+        value = float(stream.current.value)
+        if math.isinf(value):
+            # Like an integer literal that is too large. Also, "inf" would
+            # not be a float literal if the query was converted to a string.
+            raise JSONPathSyntaxError(
+                f"float literal {stream.current.value[:20]!r} is out of range",
+                token=stream.current,
+            )
+        return FloatLiteral(value=value)
 
     def parse_prefix_expression(self, stream: TokenStream) -> FilterExpression:
         tok = stream.next_token()
